@@ -196,7 +196,17 @@ func (g *c14Gen) law() (jast.Node, O, string, interface{}) {
 	for _, k := range sortedKeysOf(o) {
 		keys = append(keys, k)
 	}
-	switch r.Intn(10) {
+	switch r.Intn(11) {
+	case 10:
+		// later objects take precedence, also when an object occurs twice in the list
+		want := map[string]interface{}{}
+		for k, v := range o2 {
+			want[k] = v
+		}
+		for k, v := range o {
+			want[k] = v
+		}
+		return call("merge", &jast.Array{Items: []jast.Node{ov, &jast.Name{V: "p"}, ov}}), doc, "law:merge-same-object-twice", want
 	case 8, 9:
 		// $lookup over an array of objects = field selection over that array
 		// (array-valued members are flattened into the result by both)
@@ -290,7 +300,7 @@ func init() {
 	fw.Register(&fw.Prop{
 		ID: "C14", Title: "Object construction, grouping and object functions share one object model",
 		Rule: "cases: PRNG-generated (a) groupings arr{k: v, ...} and constructor steps arr.{k: v} over 0..8 objects with unique ids whose key expression (member, concatenation, conditional, literal) maps onto 1..4 distinct strings with collisions, absent keys and non-string keys, 1..3 pairs, value expressions member / $sum / $count / nested object / nested array / missing / literal, judged by the reference model (objects unordered; duplicate-key vs illegal-key: either accepted when both faults are present); " +
-			"(b) the partition law checked structurally on arr{g: id}: every id exactly once, in input order within its group; (c) object-function laws evaluated on generated null-free objects of 0..6 members: $merge($spread(o)) = o, $count($keys(o)) = $count($spread(o)), sorted $keys = sorted member names, $each visits every member once, $sift(o, true) = o, $lookup(o,k) = o.k, $lookup(os,k) = os.k for arrays os of 1..4 such objects (array-valued members flattened), $merge([o,p]) = right-biased union, $spread count. " +
+			"(b) the partition law checked structurally on arr{g: id}: every id exactly once, in input order within its group; (c) object-function laws evaluated on generated null-free objects of 0..6 members: $merge($spread(o)) = o, $count($keys(o)) = $count($spread(o)), sorted $keys = sorted member names, $each visits every member once, $sift(o, true) = o, $lookup(o,k) = o.k, $lookup(os,k) = os.k for arrays os of 1..4 such objects (array-valued members flattened), $merge([o,p]) = right-biased union, $merge([o,p,o]) = o over p, $spread count. " +
 			"non-trivial = >=2 items or >=2 members; distinct by (program, input)",
 		Assumptions: []string{"a one-item group presents the item itself to the value expression (reference implementation; the port after its repair)", "an absent key counts as 'not a string' (ErrIllegalKey), as in the port"},
 		Plan: func(tier string, seed uint64) *fw.Plan {
